@@ -17,7 +17,8 @@ def run(tier):
               "whose links are placed in an authoritative zone, the non-authoritative root zone, the cache and the "
               "upstream, asked in all three modes; results validated by TLC (ChainOk), errors and partial chains "
               "allowed, hangs and panics not. An evaluation is one resolution.")
-    v.assumptions = ["A1: a well-behaved upstream lists alias chains in chain order",
+    v.assumptions = ["A1: an upstream lists the aliases of an answer section in chain order (it may list a whole chain, "
+                     "also one that runs in a circle or branches)",
                      "D3: a referral out of an authoritative local zone (authoritative-only mode) is not an alias chain"]
     wd = workdir("c10")
     vlib.build_harness()
@@ -26,6 +27,15 @@ def run(tier):
     scs = rc.model_local_scenarios(gens)
     rc.run_scenarios(v, PID, wd, "gen", scs, chunk=400)
     scs = rc.alias_scenarios(r_, 400 if tier == "quick" else 4000)
+    # directed (the history of known finding F16): forwarding mode, the cache holds n2 -> n3, the forwarder answers the
+    # question for n3 with an answer section that leads back to n2 and on to n3 again
+    nm = lambda i: ["n%d" % i, "lan"]
+    cn = lambda a, b: {"name": nm(a), "type": "CNAME", "data": rc.dotted(nm(b)), "target": nm(b), "ttl": 300}
+    hints = rc.zone([], [rc.rr([], "NS", "a.root.", ["a", "root"], ttl=3600), rc.rr(["a", "root"], "A", "10.0.0.1", ttl=3600)], auth=False)
+    loop = {"rcode": 0, "aa": False, "answers": [cn(3, 4), cn(4, 1), cn(1, 2), cn(2, 3)], "authority": [], "additional": []}
+    scs.append(rc.scenario([hints], [cn(2, 3)], "forwarding", [{"name": nm(2), "type": "TXT"}],
+                           table=[{"addr": "10.9.9.9", "qname": nm(3), "qtype": "TXT", "reply": loop}], default={"rcode": 2},
+                           tag="forwarder answer section in a circle"))
     lines, rejects = rc.run_scenarios(v, PID, wd, "tv", scs)
     errs = {}
     longest = 0
